@@ -389,15 +389,15 @@ func c13Run(c *core.Ctx) {
 		lengths = []int{1, 2, 3, 4, 5, 6, 7, 8}
 	}
 	ms := multisets(len(reqS), maxSets)
-	for _, al := range allowS {
-		for _, ex := range allowS {
+	for ai, al := range allowS {
+		for ei, ex := range allowS {
 			if !c.Thorough() && len(ex) > 2 {
 				continue
 			}
+			if !c.MineKey(ai*len(allowS) + ei) {
+				continue // all required-set variants of one (allow, exclude) pair run in one process, in sequence
+			}
 			for _, m := range ms {
-				if !c.Mine() {
-					continue
-				}
 				var rs []string
 				for _, i := range m {
 					rs = append(rs, reqS[i])
